@@ -315,6 +315,20 @@ def run(tier):
     # R6 siblings
     import c19
     c19.sibling_vmresult_mappers(fx, ck, "R6.mapper-siblings")
+    # ---------------- R9 the countdown of a combinator starts at the number of handlers attached
+    import countdown
+    ck.rule("R9.countdown-sized-by-attach-loop", "a Cell<usize> countdown shared (through an Rc cloned in a loop) by the handlers of a combinator starts at the len() of the collection "
+            "that loop iterates, or at a counter incremented with every push onto it", floor=1)
+    for f9, sp9, ok9, why9 in countdown.sites(fx, lambda g: g.file.startswith("src/interpreter")):
+        ck.instance("R9.countdown-sized-by-attach-loop", "%s [%s]" % (f9.path, why9), F.short_span(sp9), ok=ok9)
+        if not ok9:
+            ck.finding("R9.countdown-sized-by-attach-loop", "R9.countdown-sized-by-attach-loop/%s" % f9.path, F.short_span(sp9),
+                       "`%s` shares a countdown among the handlers it attaches in a loop, and %s: with inputs that were settled already fewer handlers exist than the "
+                       "countdown expects, it never reaches zero and the combined promise never settles (step() stays Suspended with nothing outstanding)" % (f9.path, why9))
+    got9 = sorted((f.path.split("::")[-1], ok) for f, sp, ok, why in countdown.sites(F.load_fixture(), lambda g: g.path.startswith("countdown::")))
+    if got9 != [("bad_all", False), ("good_counter", True), ("good_len", True)]:
+        ck.closed_fail.append("R9 control failed: fixture gives %s" % got9)
+    ck.note("R9 controls: fixture bad_all (sized by all inputs) reported; good_len and good_counter silent")
     return ck.finish()
 
 
